@@ -12,6 +12,7 @@
 //	(walk t dir)                     complete forward / backward iteration, the visited nodes are recorded
 //	(probe t n seed)                 Len, Min, Max and FindGE / FindLE / Get at 0, 1, 2^31-1, 2^31, 2^31+1, 2^32-2,
 //	                                 2^32-1, around the smallest and the largest key and around n sampled elements
+//	(qkeys t ord n base stride seed) FindGE / FindLE / Get at every key of the key sequence of fill / mdel (n <= 2000)
 //	(hold t k r)                     register r = FindGE(k); Item() of every live register is recorded at checkpoints
 //	(erase t) (clone s d)            Erase / CloneDeep (only onto an empty tree)
 //	(chk)                            checkpoint: the change of the whole arena since the previous checkpoint, the
@@ -36,7 +37,7 @@ import (
 	. "verifharness/lib"
 )
 
-var macroKinds = map[string]bool{"fill": true, "mdel": true, "sweep": true, "walk": true, "probe": true, "hold": true, "chk": true}
+var macroKinds = map[string]bool{"fill": true, "mdel": true, "sweep": true, "walk": true, "probe": true, "qkeys": true, "hold": true, "chk": true}
 
 // the side file of the run; every case owns a contiguous region of it (offsets in the observations
 // are relative to the base of the case)
@@ -373,6 +374,22 @@ func (w *sworld) exec(o op) Sx {
 			out = append(out, T("q", U64(uint64(q)), itSx(ge), itSx(le), I(pres), U64(uint64(val))))
 		}
 		return T("probe", out...)
+	case "qkeys":
+		tr := w.trees[t]
+		n := a(2)
+		if n > 2000 {
+			n = 2000
+		}
+		out := []Sx{}
+		for _, q := range scaleKeys(a(1), n, a(3), a(4), a(5)) {
+			ge, le, g := tr.FindGE(q), tr.FindLE(q), tr.Get(q)
+			pres, val := 0, uint32(0)
+			if g != nil {
+				pres, val = 1, *g
+			}
+			out = append(out, T("q", U64(uint64(q)), itSx(ge), itSx(le), I(pres), U64(uint64(val))))
+		}
+		return T("probe", out...)
 	case "hold":
 		r := a(2)
 		if t < 0 || t >= nt || r < 0 || r >= nregs {
@@ -616,6 +633,53 @@ func growing(c *Config, n, ord, chunk int) []op {
 	return ops
 }
 
+// several big trees on one allocator that hand cells to each other: every tree holds the keys 1..n (own
+// values); in every round one tree is asked for a block of its keys (Get / FindGE / FindLE) and loses them, the
+// next tree inserts as many NEW keys (every freed cell is re-used, in malloc's arbitrary order), then all trees
+// are asked for the old and for the new block, Len / Min / Max and sampled keys; one round ends with Erase of a
+// tree and a refill of the others, one with a CloneDeep that is then mutated next to its original
+func sharedScale(c *Config, n, blk, rounds int) []op {
+	seed := 1 + c.Rng.Intn(1000000)
+	var ops []op
+	for t := 0; t < 3; t++ {
+		ops = append(ops, mk("fill", t, (t*2)%6, n, 1, 1, seed+t))
+	}
+	ops = append(ops, mk("hold", 0, n/2, 0), mk("hold", 1, n/2, 1), mk("hold", 2, n/2, 2), mk("chk"))
+	next := n + 1 // the new keys
+	all := func(ord, cnt, base, stride int) {
+		for t := 0; t < 3; t++ {
+			ops = append(ops, mk("qkeys", t, ord, cnt, base, stride, seed))
+		}
+	}
+	for r := 0; r < rounds; r++ {
+		a, b := r%3, (r+1)%3
+		base := 1 + (r*blk*7)%(n-blk)
+		ops = append(ops, mk("qkeys", a, r%3, blk, base, 1, seed+r))
+		ops = append(ops, mk("mdel", a, (r+1)%3, blk, base, 1, seed+r))
+		ops = append(ops, mk("fill", b, (r+2)%3, blk, next, 1, seed+b))
+		all(0, blk, next, 1)
+		all(1, blk, base, 1)
+		for t := 0; t < 3; t++ {
+			ops = append(ops, mk("probe", t, 4, seed+10*r+t))
+		}
+		next += blk
+		if r%2 == 1 {
+			ops = append(ops, mk("chk"))
+		}
+	}
+	// Erase of one tree, its cells go to the two others; the erased tree is used again afterwards
+	ops = append(ops, mk("qkeys", 2, 0, blk, 1, n/blk, seed), mk("erase", 2), mk("fill", 0, 2, n/2, next, 1, seed), mk("fill", 1, 2, n/2, next+n/4, 1, seed+1))
+	all(2, blk, next, n/blk)
+	ops = append(ops, mk("chk"), mk("fill", 2, 1, blk, 5, 3, seed+2))
+	all(0, blk, 1, 2)
+	ops = append(ops, mk("walk", 2, 0), mk("walk", 0, 1), mk("chk"))
+	// copy, then mutate either side, then use both
+	ops = append(ops, mk("erase", 1), mk("clone", 2, 1), mk("mdel", 2, 0, blk/2, 5, 6, 0), mk("mdel", 1, 0, blk/2, 8, 6, 0), mk("fill", 0, 0, blk, 3, 1, seed))
+	all(0, blk, 1, 1)
+	ops = append(ops, mk("walk", 1, 0), mk("walk", 2, 1), mk("chk"))
+	return ops
+}
+
 func scaleCases(c *Config) {
 	run := func(name string, ops []op) { emitScale(c, "scale-"+name, 3, ops) }
 	if c.Tier == "search" {
@@ -625,6 +689,9 @@ func scaleCases(c *Config) {
 		return
 	}
 	thorough := c.Tier == "thorough"
+	if thorough {
+		run("shared-3x100000", sharedScale(c, 100000, 1000, 12))
+	}
 	// the biggest cases first: the driver judges scale cases in child processes while it goes on
 	if thorough {
 		for ord := 0; ord < 3; ord++ {
@@ -662,6 +729,9 @@ func scaleCases(c *Config) {
 			run(fmt.Sprintf("%s-%d", ordNames[ord], n), tour(c, n, ord, (ord+i)%4, true))
 		}
 	}
+	// several trees that exchange cells
+	run("shared-3x2000", sharedScale(c, 2000, 300, 6))
+	run("shared-3x257", sharedScale(c, 257, 33, 9))
 	// judged while growing
 	run("grow-asc-10000", growing(c, 10000, 0, 1250))
 	run("grow-desc-10000", growing(c, 10000, 1, 1250))
